@@ -69,7 +69,9 @@ class IterEngine(Engine):
         # snapshot / restore
         c.append("4 0 0 0 I 1 1 1 T 2 2 3 40 T 3 3 2 5 A 5 C SN 7 0 C IT P 1 P 2 P 3 A 34 P 2 A 1 P 2 IT")
         c.append("2 100 0 0 I 1 1 30 I 2 2 30 I 3 3 30 M C SN 0 0 C I 4 4 30 I 5 5 30 M C IT")
-        # F-23 shape: snapshot taken while over capacity
+        # F-23 shape (fixed): snapshot taken while over capacity; the first line is the former witness
+        c.append("1 10 0 0 I 1 1 4 I 2 2 4 I 3 3 4 SN 0 0 M C")
+        c.append("2 10 0 0 I 5 1 4 I 2 2 4 I 3 3 4 I 8 4 3 SN 2 0 C M C IT I 4 5 1 I 9 6 2 M C IT")
         c.append("1 10 0 0 I 1 1 4 I 2 2 4 I 3 3 4 C SN 0 0 C M C IT I 4 4 1 M C IT")
         c.append("1 10 0 0 I 1 1 4 I 2 2 4 I 3 3 4 C M C IT")
         # TTI is reset by restore
@@ -402,7 +404,7 @@ class IterEngine(Engine):
                     if restored and snap_total > cap:
                         hit("restored-over-capacity",
                             "restored cache: current_cost %d > capacity %d after run_maintenance (the snapshot held "
-                            "cost %d; restored entries are unknown to the eviction policy)" % (c, cap, snap_total))
+                            "cost %d: are the restored entries known to the eviction policy? finding F-23)" % (c, cap, snap_total))
                     elif restored:
                         hit("restored-capacity", "restored cache: current_cost %d > capacity %d after run_maintenance" % (c, cap))
                     else:
